@@ -14,7 +14,8 @@ specific to manifest, with a demonstration. Round 1: one agent per property (20)
 agents on the properties with the largest behaviour space, each told which change had already been
 used for its property. Round 3: 12 more (C01 C02 C06 C07 C11 C12 C13 C15 C16 C17 C19 C20), each told
 the titles of the changes already used. Round 4: 8 more (C03 C04 C05 C08 C09 C10 C14 C18). Round 5: 11 more
-(C01 C02 C06 C07 C11 C12 C13 C15 C16 C19 C20). Every returned change was re-confirmed in a new scratch worktree by
+(C01 C02 C06 C07 C11 C12 C13 C15 C16 C19 C20). Round 6: 9 more (C03 C04 C05 C08 C09 C10 C14 C17 C18).
+Every returned change was re-confirmed in a new scratch worktree by
 `tools/confirm_seed.sh` / `confirm_seed_unit.sh` (patch applies, 33+9 tests pass with it, the
 demonstration fails with it and passes without it; for the two memory-ordering changes the
 demonstration is a Miri run) and then the property's quick check was run against it in /repo
@@ -28,9 +29,9 @@ the same change independently (C02/C03, C06/C07, C08/C11).
 for n,p,needs,c in rows:
     new+=f"| {n} | {p} | {needs.replace('|','/')} | {c} |\\n".replace('\\n','\n')
 new+='''
-All 64 are caught now, on every run, by the quick tier of the property they break. **Twenty-four
+All 73 are caught now, on every run, by the quick tier of the property they break. **Twenty-five
 were missed when first confirmed** (eleven of rounds 1-2, seven of round 3, two of round 4, four of
-round 5) and led to strengthening:
+round 5, one of round 6) and led to strengthening:
 
 * *C01-no-fold-after-normalize* (only U+0130 is affected) and *R2-C14-std-is-uppercase* (final
   sigma, long s, micro sign, title-case digraphs): hand-picked alphabets cannot anticipate which
@@ -110,6 +111,11 @@ round 5) and led to strengthening:
   hand-picked Unicode ones. Family **ascii-sweep** (each of the 128 ASCII characters as a needle
   character against itself and its case partner, three needle shapes x four haystack layouts)
   and domain **ascii-edges** (first/last letter and digit of each range and their neighbours).
+* *R6-C10-setup-last-char-unchecked* ended the check as a **machinery failure** (exit 2): the
+  poisoned-scratch phase called the library on a fresh matcher outside `catch_unwind`. Every
+  subject call of that phase is caught now and a panic on a fresh matcher is a violation of its own.
+  *R6-C08-eager-alloc-store* uses `AtomicPtr::store`, which the loom shim did not offer (the check
+  would not have built); the shim now covers the whole std API of the three atomic types.
 * Confirming *C13-no-retry-for-zero-timeout* exposed a harness bug (a parked thread of a
   deadlocked execution kept a global lock; the next execution stalled and the run ended as a
   machinery failure instead of a verdict) - fixed by a pool of reference matchers.
